@@ -194,16 +194,11 @@ impl Repr {
             // SAFETY: We just checked that `self` is HeapBuffer
             let heap = unsafe { self.as_heap_buffer_mut() };
 
-            // Because `fetch_sub` is already atomic, we should use `Release` ordering to avoid
-            // unexpected drop of the buffer and to ensure that the buffer is unique.
-            if heap.reference_count().fetch_sub(1, Release) == 1 {
+            // Same as `Arc::get_mut`: if the `Acquire` load observes 1, every other handle has been
+            // released (their `Release` decrements happen-before this point) and no new one can be
+            // created while we hold `&mut self`.
+            if heap.is_unique() {
                 // `heap` is unique, we can reallocate in place.
-
-                // We need to rollback the reference count.
-                // We should use `Acquire` ordering to prevent reordering of the reallocation and
-                // the reference count increment.
-                // This is a same meaning of `fence(Acquire); fech_add(1, Relaxed);`
-                heap.reference_count().fetch_add(1, Acquire);
 
                 if heap.capacity() >= needed_capacity {
                     // No need to reserve more capacity.
@@ -216,11 +211,13 @@ impl Repr {
                 // - `amortized_capacity` is greater than `len`.
                 unsafe { heap.realloc(amortized_capacity)? };
             } else {
-                // heap is shared, we need to reallocate a new buffer.
-                // We already decremented the reference count, no need to touch it again.
+                // heap is shared, we need to allocate a new buffer.
+                // We keep our reference until the copy is done, so that the buffer can neither be
+                // released nor modified by another owner while we read it, and so that a failed
+                // allocation leaves the reference count untouched.
                 let str = heap.as_str();
                 let new_heap = HeapBuffer::with_additional(str, additional)?;
-                *self = Repr::from_heap(new_heap);
+                self.replace_inner(Repr::from_heap(new_heap));
             }
             Ok(())
         } else if self.is_static_buffer() {
@@ -491,23 +488,20 @@ impl Repr {
                 // SAFETY: `new_len <= len <= capacity`
                 unsafe { heap.set_len(new_len) };
             } else {
-                // See `reverse` method for the explanation of the ordering.
-                if heap.reference_count().fetch_sub(1, Release) == 1 {
-                    // `heap` is unique, we can set the new length in place.
-
-                    // See `reverse` method for the explanation of the ordering.
-                    heap.reference_count().fetch_add(1, Acquire);
-
-                    // SAFETY: `heap` is unique, we can reallocate in place.
+                // See `reserve` method for the explanation of the uniqueness check.
+                if heap.is_unique() {
+                    // SAFETY: `heap` is unique, we can set the new length in place.
                     unsafe { heap.set_len(new_len) };
                 } else {
                     // SAFETY: `ptr` is valid for `len` bytes, and `HeapBuffer` contains valid UTF-8.
                     let str = unsafe {
-                        let ptr = self.0 as *mut u8;
-                        let slice = slice::from_raw_parts_mut(ptr, new_len);
-                        str::from_utf8_unchecked_mut(slice)
+                        let ptr = self.0 as *const u8;
+                        let slice = slice::from_raw_parts(ptr, new_len);
+                        str::from_utf8_unchecked(slice)
                     };
-                    *self = Repr::from_str(str)?;
+                    // We keep our reference until the copy is done. See `reserve`.
+                    let new_repr = Repr::from_str(str)?;
+                    self.replace_inner(new_repr);
                 }
             }
         } else if self.is_static_buffer() {
@@ -630,17 +624,13 @@ impl Repr {
             // SAFETY: we just checked self is HeapBuffer
             let heap = unsafe { self.as_heap_buffer_mut() };
 
-            // See `reverse` method for the explanation of the ordering.
-            if heap.reference_count().fetch_sub(1, Release) == 1 {
-                // `heap` is unique, we can modify it in place.
-
-                // See `reverse` method for the explanation of the ordering.
-                heap.reference_count().fetch_add(1, Acquire);
-            } else {
-                // SAFETY: `heap` is shared, we need to create a new buffer.
+            // See `reserve` method for the explanation of the uniqueness check.
+            if !heap.is_unique() {
+                // `heap` is shared, we need to create a new buffer.
+                // We keep our reference until the copy is done. See `reserve`.
                 let str = heap.as_str();
                 let new_heap = HeapBuffer::new(str)?;
-                *self = Repr::from_heap(new_heap);
+                self.replace_inner(Repr::from_heap(new_heap));
             }
         } else if self.is_static_buffer() {
             // StaticBuffer is immutable, need to convert to other buffer.
